@@ -26,10 +26,10 @@ MiscOps == {Misc(<<>>, FALSE)}
 
 \* ---------------- pool A: competition / backtracking / abandoned captures
 PatsA == {"/u/{id}", "/u/{id:\\d+}", "/u/{id:digit}", "/u/5", "/u/{id}/x", "/u/{id}/{p:\\d+}",
-          "/u/{id}/{act}/log", "/u/{-id}/z", "/u/{uid}/x", "/u/{u}/y", "/p/{id:\\d+}.h", "/p-{a}-{b:any}.h", "/p/{-id:\\d+}.h", "/q/{-k:\\d+|new}/x"}
+          "/u/{id}/{act}/log", "/u/{-id}/z", "/u/{uid}/x", "/u/{u}/y", "/p/{id:\\d+}.h", "/p-{a}-{b:any}.h", "/p/{-id:\\d+}.h", "/q/{-k:\\d+|new}/x", "/u/{id:\\d+}/x"}
 HOpsA == {H(p, ms) : p \in PatsA, ms \in {G, P}}
 ROpsA == {Rm(p, ms) : p \in PatsA, ms \in {<<>>, G}}
-COpsA == {Cl(""), Cl("/u/"), Cl("/p"), Cl("/u/{id}/"), Cl("/u/{id}"), Cl("/u/5")}
+COpsA == {Cl(""), Cl("/u/"), Cl("/p"), Cl("/u/{id}/"), Cl("/u/{id}"), Cl("/u/5"), Cl("/u/{id:\\d+}/")}
 UOpsA == {}
 CfgsA == {Cfg(FALSE)}
 BasesA == {<<>>, <<H("/p/{-id:\\d+}.h", G), H("/u/{id}", G)>>,
@@ -51,7 +51,7 @@ TopB  == {"a", "b", "c", "d", "e", "f"}
 PatsB == LitB \cup TopB \cup {"/s/ta", "/s/tb", "/s/tc", "/s/{id}", "/s/{n:\\d+}", "{top}", "/s/{id}/t", "/s/{k:digit}/t/{r}", "/s/{uid}/t"}
 HOpsB == {H(p, ms) : p \in PatsB, ms \in {G, P}}
 ROpsB == {Rm(p, ms) : p \in PatsB, ms \in {<<>>, G}}
-COpsB == {Cl(""), Cl("/s/"), Cl("/s/a"), Cl("a"), Cl("/s/t")}
+COpsB == {Cl(""), Cl("/s/"), Cl("/s/a"), Cl("a"), Cl("/s/t"), Cl("/s/{id}")}
 UOpsB == {}
 CfgsB == {Cfg(FALSE)}
 BaseB1 == <<H("/s/a", G), H("/s/b", G), H("/s/c", G), H("/s/d", G), H("/s/e", G), H("/s/f", G), H("/s/g", G), H("/s/{id}", G), H("/s/{n:\\d+}", G)>>
@@ -88,7 +88,7 @@ ProbesC == <<W("/posts/author", <<>>), W("/posts/abc", <<>>), W("/posts/{id}/aut
 MethodsC == <<"GET", "HEAD", "POST", "DELETE", "PUT", "OPTIONS", "TRACE", "BOGUS">>
 
 \* ---------------- pool X: Handle / Remove with every kind of method list (C17, C08, C03)
-PatsX == {"/u/{id}/ab", "/u/{id}/ac", "/u/{id}", "/u/{name}", "/x", "/u/{id:\\d+}", "/u/{name}/a", "/u/{id}/", "/u/{name}/", "/u/{-n:[a-z]+}"}
+PatsX == {"/u/{id}/ab", "/u/{id}/ac", "/u/{id}", "/u/{name}", "/x", "/u/{id:\\d+}", "/u/{name}/a", "/u/{id}/", "/u/{name}/", "/u/{-n:[a-z]+}", "/u/{-uid}"}
 BadPatsX == {"/u/{}", "/u/{a}{b}", "/u/{a}/{a}", "", "/u/{:\\d+}", "/u/{a}/{-a}", "/u/{-a}/{a:\\d+}", "/u/{a:\\d+}{b}", "/u/{a:digit}{b}"}
 ListsX == {G, P, <<"GET", "BOGUS">>, <<"BOGUS", "GET">>, <<"HEAD">>, <<"POST", "OPTIONS">>, <<"TRACE">>, <<"GET", "GET">>, <<"GET", "POST">>, <<"GET", "POST", "GET">>, <<>>}
 HOpsX == {H(p, ms) : p \in PatsX, ms \in ListsX} \cup {H(p, G) : p \in BadPatsX}
@@ -148,7 +148,8 @@ COpsR == {}  UOpsR == {}
 CfgsR == {Cfg(FALSE)}
 BasesR == {<<H("/", G), H("/a", G), H("/b", G), H("/c", G), H("/d", G), H("/e", G)>>,
            <<H("/a", G), H("/b", G), H("/c", G), H("/d", G), H("/e", G), H("{top}", G)>>,
-           <<H("/a1x", G), H("/a1y", G), H("/c", G), H("/d", G), H("/e", G), H("/f", G)>>}
-ProbesR == <<W("/", <<>>), W("/a", <<>>), W("/b", <<>>), W("/e", <<>>), W("/c", <<>>), W("/d", <<>>), W("/f", <<>>), W("/a1x", <<>>), W("/a1y", <<>>), W("{top}", [top |-> "7q"]), A("/zz"), A("/a/x"), A("x"), A(""), A("*")>>
+           <<H("/a1x", G), H("/a1y", G), H("/c", G), H("/d", G), H("/e", G), H("/f", G)>>,
+           <<H("/", G), H("/a1x", G), H("/a1y", G), H("/c", G), H("/d", G), H("/e", G), H("/f", G)>>}
+ProbesR == <<W("/", <<>>), W("/a", <<>>), W("/b", <<>>), W("/e", <<>>), W("/c", <<>>), W("/d", <<>>), W("/f", <<>>), W("/a1x", <<>>), W("/a1y", <<>>), W("{top}", [top |-> "7q"]), A("/zz"), A("/a/x"), A("/a1"), A("/a1/"), A("x"), A(""), A("*")>>
 MethodsR == <<"GET", "POST", "OPTIONS">>
 =============================================================================
